@@ -1,11 +1,16 @@
 (* C35 -- periodic scheduling threads state, keeps the period and stops
-   (virtual-time part; thread-based schedulers are not covered here).
+   (virtual-time part, and -- second half of this file -- the dedicated-thread loop of
+   NewThreadScheduler.schedule_periodic; the other thread-based schedulers are not
+   covered here).
 
    Model: PeriodicScheduler.schedule_periodic as part of Core/VTime.v
    ([SPeriodic], the [PPer] payload = the [periodic] closure, [SPCancel] =
    disposing the returned disposable), specification in Core/Periodic.v; tied to
    the code by the K1 correspondence of harness/props/C35.py. *)
 From RxVerif Require Import Base.Prelude Core.VTime Core.VTimeFacts Core.Periodic Core.PeriodicFacts.
+From RxVerif Require Core.NewThreadPeriodic Core.NewThreadPeriodicFacts.
+Module NTP := RxVerif.Core.NewThreadPeriodic.
+Module NTPF := RxVerif.Core.NewThreadPeriodicFacts.
 
 (* schedule_periodic(p, f, st0) on a fresh scheduler at clock c0, then
    advance_to(t): the calls made, oldest first, are exactly [solo_spec], for every
@@ -125,3 +130,174 @@ Qed.
 (* the hypotheses of C35_calls / C35_calls_complete are satisfiable *)
 Example C35_witness_hyps : 0 <= 3 /\ 200 < 215 /\ (Z.to_nat ((215 - 203) / 3 + 1) <= 10)%nat.
 Proof. split; [lia | split; [lia | vm_compute; lia]]. Qed.
+
+(* ===== NewThreadScheduler.schedule_periodic: the loop on its dedicated thread =====
+
+   Model: Core/NewThreadPeriodic.v ([NTP.periodic p f st0 c0 d0 script]: loop state =
+   (user state, next timeout, disposed flag, clock); the script has one record per
+   iteration -- duration of the invocation, whether it raises, and dispose() calls
+   while the loop waits / before its test / between test and action / during the
+   invocation); tied to the code by the correspondence of harness/props/C35.py
+   (harness/ntpdrv.py drives the real loop with a controlled clock, Event and
+   thread).  All theorems are for EVERY period (any sign), state transformer,
+   initial state, start clock and script.  Zero latency: the clock moves only in
+   disposed.wait and in the action. *)
+
+(* (a) state threading: the k-th invocation (k = 0, 1, ...) is handed f^k(st0); the
+   state passed to invocation k+1 is what invocation k returned (whatever it is:
+   `state = action(state)`, a returned None is threaded like any other value) *)
+Theorem C35_nt_state_threading : forall (T : Type) p (f : T -> T) st0 c0 d0 sc k c x c' x',
+  nth_error (NTP.invs (fst (NTP.periodic p f st0 c0 d0 sc))) k = Some (c, x) ->
+  nth_error (NTP.invs (fst (NTP.periodic p f st0 c0 d0 sc))) (S k) = Some (c', x') ->
+  x' = f x.
+Proof. exact (@NTPF.periodic_threading). Qed.
+Print Assumptions C35_nt_state_threading.
+
+Theorem C35_nt_kth_state : forall (T : Type) p (f : T -> T) st0 c0 d0 sc k c x,
+  nth_error (NTP.invs (fst (NTP.periodic p f st0 c0 d0 sc))) k = Some (c, x) -> x = Nat.iter k f st0.
+Proof. exact (@NTPF.periodic_state_kth). Qed.
+Print Assumptions C35_nt_kth_state.
+
+(* (b) the loop tests the flag before EVERY invocation -- also when the timeout is <= 0
+   and nothing is waited for: an invocation entered at clock c is preceded by a test at
+   clock c that reported False, with nothing but dispose() calls at c in between *)
+Theorem C35_nt_tested_before_every_invocation : forall (T : Type) p (f : T -> T) st0 c0 d0 sc l1 c x l2,
+  fst (NTP.periodic p f st0 c0 d0 sc) = l1 ++ NTP.EInv c x :: l2 ->
+  exists l0 w, l1 = l0 ++ NTP.ETest c false :: w /\ Forall (fun e => e = NTP.EDisp c) w.
+Proof. exact (@NTPF.periodic_tested_before_every_invocation). Qed.
+Print Assumptions C35_nt_tested_before_every_invocation.
+
+(* ... a test that comes after a dispose() call reports True and nothing follows it
+   (run() returns) ... *)
+Theorem C35_nt_test_after_dispose_stops : forall (T : Type) p (f : T -> T) st0 c0 d0 sc l1 c l2 c' b l3,
+  fst (NTP.periodic p f st0 c0 d0 sc) = l1 ++ NTP.EDisp c :: l2 ++ NTP.ETest c' b :: l3 ->
+  b = true /\ l3 = [].
+Proof. exact (@NTPF.periodic_test_after_dispose). Qed.
+Print Assumptions C35_nt_test_after_dispose_stops.
+
+(* ... hence NO invocation starts at a later clock instant than a dispose() call; the
+   only invocation that can still start after the call is the one whose test the loop
+   had already passed (dispose() from another thread between `disposed.is_set()` and
+   `action(state)`), and it starts at the very instant of the call *)
+Theorem C35_nt_no_start_after_dispose : forall (T : Type) p (f : T -> T) st0 c0 d0 sc l1 c l2,
+  fst (NTP.periodic p f st0 c0 d0 sc) = l1 ++ NTP.EDisp c :: l2 ->
+  NTP.invs l2 = [] \/ exists x, NTP.invs l2 = [(c, x)].
+Proof. exact (@NTPF.periodic_after_dispose). Qed.
+Print Assumptions C35_nt_no_start_after_dispose.
+
+(* ... a dispose() during an invocation -- from inside the action or from another
+   thread, however long the invocation takes (also >= the period, when nothing is
+   waited for afterwards) -- makes that invocation the last one *)
+Theorem C35_nt_dispose_during_invocation_is_last :
+  forall (T : Type) p (f : T -> T) st0 c0 d0 sc l1 c x l2 c' l3,
+  fst (NTP.periodic p f st0 c0 d0 sc) = l1 ++ NTP.EInv c x :: l2 ++ NTP.EDisp c' :: l3 ->
+  forallb (fun e => negb (NTPF.is_test e)) l2 = true -> NTP.invs l3 = [].
+Proof. exact (@NTPF.periodic_dispose_during_invocation). Qed.
+Print Assumptions C35_nt_dispose_during_invocation_is_last.
+
+(* ... and a dispose() before the new thread executes its first instruction: no
+   invocation at all, whatever the period (0 included) *)
+Theorem C35_nt_disposed_before_start : forall (T : Type) p (f : T -> T) st0 c0 sc,
+  NTP.invs (fst (NTP.periodic p f st0 c0 true sc)) = [].
+Proof. exact (@NTPF.periodic_disposed_before_start). Qed.
+Print Assumptions C35_nt_disposed_before_start.
+
+(* an invocation that raises is the last event (the exception leaves run()) *)
+Theorem C35_nt_raise_is_last : forall (T : Type) p (f : T -> T) st0 c0 d0 sc l1 c l2,
+  fst (NTP.periodic p f st0 c0 d0 sc) = l1 ++ NTP.ERaise c :: l2 -> l2 = [].
+Proof. exact (@NTPF.periodic_raise_last). Qed.
+Print Assumptions C35_nt_raise_is_last.
+
+(* (c) spacing: invocation k+1 starts EXACTLY max(period, duration of invocation k) after
+   the start of invocation k: one period when the action is not slower than the period
+   (the time it took is subtracted from the next wait), at its end when it overruns
+   (nothing is caught up); never less than a period *)
+Theorem C35_nt_spacing : forall (T : Type) p (f : T -> T) st0 c0 d0 sc k c x c' x',
+  nth_error (NTP.invs (fst (NTP.periodic p f st0 c0 d0 sc))) k = Some (c, x) ->
+  nth_error (NTP.invs (fst (NTP.periodic p f st0 c0 d0 sc))) (S k) = Some (c', x') ->
+  exists it, nth_error sc k = Some it /\ c' = c + Z.max p (NTP.dur_of it) /\
+             c + p <= c' /\ c + NTP.dur_of it <= c' /\ (NTP.dur_of it <= p -> c' = c + p).
+Proof. exact (@NTPF.periodic_spacing). Qed.
+Print Assumptions C35_nt_spacing.
+
+(* closed form: state f^k(st0) at c0 + max(0, p) + sum over j < k of max(p, duration j) *)
+Theorem C35_nt_kth_call : forall (T : Type) p (f : T -> T) st0 c0 d0 sc k c x,
+  nth_error (NTP.invs (fst (NTP.periodic p f st0 c0 d0 sc))) k = Some (c, x) ->
+  x = Nat.iter k f st0 /\ c = c0 + Z.max 0 p + NTP.gaps p sc k /\ (k < length sc)%nat.
+Proof. exact (@NTPF.periodic_kth). Qed.
+Print Assumptions C35_nt_kth_call.
+
+(* exactly (k+1) periods after scheduling while no earlier invocation overran; never earlier *)
+Theorem C35_nt_kth_call_on_time : forall (T : Type) p (f : T -> T) st0 c0 d0 sc k c x, 0 <= p ->
+  nth_error (NTP.invs (fst (NTP.periodic p f st0 c0 d0 sc))) k = Some (c, x) ->
+  (forall j it, (j < k)%nat -> nth_error sc j = Some it -> NTP.dur_of it <= p) ->
+  c = c0 + (Z.of_nat k + 1) * p.
+Proof. exact (@NTPF.periodic_kth_ontime). Qed.
+Print Assumptions C35_nt_kth_call_on_time.
+
+Theorem C35_nt_never_early : forall (T : Type) p (f : T -> T) st0 c0 d0 sc k c x,
+  nth_error (NTP.invs (fst (NTP.periodic p f st0 c0 d0 sc))) k = Some (c, x) ->
+  c0 + (Z.of_nat k + 1) * p <= c.
+Proof. exact (@NTPF.periodic_kth_lower). Qed.
+Print Assumptions C35_nt_never_early.
+
+(* (d) the first invocation: exactly max(0, period) after scheduling, with the initial state *)
+Theorem C35_nt_first_call : forall (T : Type) p (f : T -> T) st0 c0 d0 sc c x,
+  nth_error (NTP.invs (fst (NTP.periodic p f st0 c0 d0 sc))) 0 = Some (c, x) ->
+  c = c0 + Z.max 0 p /\ c0 + p <= c /\ x = st0.
+Proof. exact (@NTPF.periodic_first). Qed.
+Print Assumptions C35_nt_first_call.
+
+(* ---- witnesses (new-thread loop) ------------------------------------------ *)
+
+(* period 3 s scheduled at clock 200 us: invocations that take 0.25 s and 2.5 s are
+   compensated (waits of 2.75 s and 0.5 s), the third takes 4 s > period: the fourth starts
+   when it ends, without a wait; dispose() from another thread 1 s into the last wait
+   wakes the loop, which stops *)
+Example C35_nt_witness_elapsed :
+  NTP.periodic 3000000 (fun x => x + 1) 0 200 false
+    [NTP.quiet 250000; NTP.quiet 2500000; NTP.quiet 4000000; NTP.quiet 0;
+     NTP.Iter (Some 1000000) false false 0 None false]
+  = ([NTP.EWait 200 3000000; NTP.ETest 3000200 false; NTP.EInv 3000200 0; NTP.EEnd 3250200;
+      NTP.EWait 3250200 2750000; NTP.ETest 6000200 false; NTP.EInv 6000200 1; NTP.EEnd 8500200;
+      NTP.EWait 8500200 500000; NTP.ETest 9000200 false; NTP.EInv 9000200 2; NTP.EEnd 13000200;
+      NTP.ETest 13000200 false; NTP.EInv 13000200 3; NTP.EEnd 13000200;
+      NTP.EWait 13000200 3000000; NTP.EDisp 14000200; NTP.ETest 14000200 true], NTP.Stopped).
+Proof. vm_compute. reflexivity. Qed.
+
+(* the overrunning invocation (1 ms >= period 1 ms: no wait follows) is disposed from
+   inside, 0.4 ms after it started: the flag is tested all the same, no third invocation *)
+Example C35_nt_witness_overrun_disposed :
+  NTP.periodic 1000 (fun x => x + 1) 0 0 false
+    [NTP.quiet 2500; NTP.Iter None false false 1000 (Some 400) false; NTP.quiet 0]
+  = ([NTP.EWait 0 1000; NTP.ETest 1000 false; NTP.EInv 1000 0; NTP.EEnd 3500;
+      NTP.ETest 3500 false; NTP.EInv 3500 1; NTP.EDisp 3900; NTP.EEnd 4500;
+      NTP.ETest 4500 true], NTP.Stopped).
+Proof. vm_compute. reflexivity. Qed.
+
+(* period 0; dispose() from another thread in the dispatch window (after the test, before
+   the action is entered): that one invocation still starts, at the instant of the call *)
+Example C35_nt_witness_window :
+  NTP.periodic 0 (fun x => x + 1) 0 50 false
+    [NTP.quiet 0; NTP.Iter None false true 7 None false; NTP.quiet 0]
+  = ([NTP.ETest 50 false; NTP.EInv 50 0; NTP.EEnd 50; NTP.ETest 50 false; NTP.EDisp 50;
+      NTP.EInv 50 1; NTP.EEnd 57; NTP.ETest 57 true], NTP.Stopped).
+Proof. vm_compute. reflexivity. Qed.
+
+(* the second invocation raises: the thread dies, nothing follows *)
+Example C35_nt_witness_raise :
+  NTP.periodic 1000 (fun x => x + 1) 0 0 false
+    [NTP.quiet 10; NTP.Iter None false false 10 None true; NTP.quiet 0]
+  = ([NTP.EWait 0 1000; NTP.ETest 1000 false; NTP.EInv 1000 0; NTP.EEnd 1010;
+      NTP.EWait 1010 990; NTP.ETest 2000 false; NTP.EInv 2000 1; NTP.ERaise 2010], NTP.Died).
+Proof. vm_compute. reflexivity. Qed.
+
+(* the hypotheses of C35_nt_spacing / C35_nt_dispose_during_invocation_is_last are satisfiable *)
+Example C35_nt_witness_hyps :
+  let tr := fst (NTP.periodic 1000 (fun x => x + 1) 0 0 false
+                   [NTP.quiet 2500; NTP.Iter None false false 1000 (Some 400) false; NTP.quiet 0]) in
+  nth_error (NTP.invs tr) 0 = Some (1000, 0) /\ nth_error (NTP.invs tr) 1 = Some (3500, 1) /\
+  tr = [NTP.EWait 0 1000; NTP.ETest 1000 false; NTP.EInv 1000 0; NTP.EEnd 3500; NTP.ETest 3500 false]
+       ++ NTP.EInv 3500 1 :: [] ++ NTP.EDisp 3900 :: [NTP.EEnd 4500; NTP.ETest 4500 true] /\
+  forallb (fun e : NTP.ev Z => negb (NTPF.is_test e)) [] = true.
+Proof. vm_compute. repeat split; reflexivity. Qed.
